@@ -1,6 +1,7 @@
 #!/bin/bash
 # tools/matrix.sh <out-file> <seeded-id>... : for each seeded change, apply it to a scratch worktree and run ALL quick checks
 # against that tree (VERIF_REPO), writing one line per (seeded id, property). Does not touch /repo or /verif/evidence.
+mkdir -p /tmp/wt
 OUT="$1"; shift
 # VERIF_SNAP=<dir>: run the checks from a snapshot copy of /verif (harness under edit does not disturb a long matrix run)
 V="${VERIF_SNAP:-/verif}"
